@@ -67,6 +67,11 @@
     * transitivity of URICmp (false in general: parameters present in only one URI are ignored);
     * behaviour with more than 100 parameters / headers beyond what the hypotheses say about the stored prefix.
   Model tied to sipuri.go / parse_uri_params.go / parse_uri_hdrs.go by the correspondence check.
+  KNOWN FINDING F25 (a genuine defect of the library, found by the audit of the generators, known_findings.json): beyond
+  100 parameters / headers the comparison depends on the order of the items and ignores the items after the 100th
+  (`URIParamsEq` / `URIHdrsEq` compare what fitted into scratch arrays of 100 entries). The theorems below that speak
+  about raw texts carry "at most 100 items" for this reason; model and code agree on the witnesses (101 headers rotated:
+  unequal; 101st value changed: equal), both contradict the property there.
 -/
 import Sipsp.Proofs.UriCmpLaws
 import Sipsp.Proofs.UriCmpLink
